@@ -6,7 +6,7 @@ S=/tmp/ne_$N; rm -rf $S; mkdir -p $S; (cd /repo && git archive HEAD src | tar -x
 cd /verif
 R=""
 for P in C01 C02 C03 C04 C05 C06 C07 C08 C09 C10 C11 C12 C13 C14 C15 C16 C17 C18 C19 C20; do
-  PYTHONPATH=$S/src VERIF_REPO=$S timeout 1800 ./check.py $P > /tmp/ne_${N}_$P.out 2>&1; E=$?
+  VERIF_OUT_DIR=$S/out PYTHONPATH=$S/src VERIF_REPO=$S timeout 1800 ./check.py $P > /tmp/ne_${N}_$P.out 2>&1; E=$?
   R="$R $P=$E"
 done
 echo "$N$R"
